@@ -10,3 +10,13 @@ PROPS['C11'] = dict(
     assumptions=[],
     domain=[],
 )
+
+PROPS['C04'] = dict(
+    title='Tokenizer vocabulary maps are mutually consistent bijections',
+    groups=[dict(template='c04_bpe.rs')],
+    input_search=True,
+    claim='',
+    not_covered=[],
+    assumptions=[],
+    domain=[],
+)
